@@ -328,3 +328,43 @@ Theorem untar_refuses_outside c f dir e rest :
   in_dir dir (filepath_join [dir; e_name e]) = false ->
   untar c f dir (e :: rest) = (XRefused, f).
 Proof. intros H. cbn [untar]. unfold untar_entry. now rewrite H. Qed.
+
+(** *** Entry types *)
+
+(** A tar entry that is neither a regular file nor a directory (symbolic
+    link, hard link, device, fifo, ...) is never written and ends the
+    extraction; nothing is created for it. *)
+Theorem untar_other_writes_nothing c f dir e :
+  e_kind e = KOther ->
+  snd (untar_entry c f dir e) = f /\
+  (fst (untar_entry c f dir e) = Some XUnsupported \/ fst (untar_entry c f dir e) = Some XRefused).
+Proof.
+  intros H. unfold untar_entry. rewrite H.
+  destruct (in_dir dir (filepath_join [dir; e_name e])); cbn; split; auto.
+Qed.
+
+(** A zip entry whose mode says symbolic link, device, fifo or socket is
+    extracted exactly like a regular file with the same permission bits: its
+    content is written to a regular file; no link or device is created. *)
+Theorem unzip_non_dir_is_regular c f dir e :
+  e_kind e <> KDir ->
+  unzip_entry c f dir e =
+  unzip_entry c f dir {| e_name := e_name e; e_kind := KFile; e_perm := e_perm e; e_data := e_data e |}.
+Proof.
+  intros H. unfold unzip_entry. cbn [e_name e_kind e_perm e_data].
+  destruct (e_kind e); [reflexivity|congruence|reflexivity].
+Qed.
+
+(** [writeFirstFileAs]: only the file the caller named can change, whatever
+    the entries are called. *)
+Theorem first_file_confined c file es : forall f k,
+  (forall t, resolve (cwd c) file = Some t -> k <> t) ->
+  lookup (snd (first_file_as c f file es)) k = lookup f k.
+Proof.
+  induction es as [|e es IH]; intros f k Hk; [reflexivity|].
+  cbn [first_file_as]. destruct (e_kind e); try (now apply IH).
+  destruct (open_trunc c f file (N.land (e_perm e) perm_mask)) as [[[t pm] f2]|] eqn:Eo; [|reflexivity].
+  destruct (open_trunc_spec _ _ _ _ _ _ _ Eo) as (Ht & d & ->). cbn [snd].
+  rewrite !lookup_set. specialize (Hk t Ht).
+  destruct (key_eqb t k) eqn:E; [apply key_eqb_eq in E; congruence|reflexivity].
+Qed.
